@@ -14,6 +14,22 @@ Sound-by-construction rules (anything else raises Unsupported -> broken obligati
        (assume-guarantee: that contract is exactly what is proved for every class)
   any other call with array arguments (callbacks, unknown methods) -> may write and alias every argument
   `if xp == np:` -> CPU arm only (CuPy arms are out of scope: no GPU in the verification environment)
+
+Harmless spellings that are normalised (same obligations for the callers; anything else stays Unsupported):
+  * module-level helper functions of linop.py / prox.py called from an `_apply` / `_prox` (e.g. an extracted
+    `_axis_slice(ndim, axis, start, end)`): translated on demand like every other in-scope function and called
+    through `callS` with the summary the Lean analysis computes for them (`summ_<f>_eq`); positional and keyword
+    arguments are resolved against the callee's signature;
+  * `self._helper(...)` / `Cls._helper(...)` where `_helper` is a private (single underscore) method that is
+    defined exactly once in the module, in the class of the caller or one of its bases (so dynamic dispatch
+    cannot pick another body), and local `def helper(...)` closures that are only ever called by name:
+    the body is INLINED at the call site (parameters bound to the argument variables, `return v` becomes a
+    weak update of the call's result variable).  Recursion, *args/**kwargs, decorators other than
+    staticmethod, a helper used as a value: Unsupported.  The dispatching methods (`_apply`, `_prox`,
+    `_adjoint_linop`, `_normal_linop`) keep the child-operator contract.
+  * a NEW private module-level helper (not in the property's list MUST_BE_CLEAN) that writes one of its
+    parameters (e.g. `_store(output, slc, v)`) carries no `_ok` obligation of its own: its writes are accounted
+    for at every call site through its summary (listed in the generated `privateInplaceHelpers`).
 """
 import ast
 import os
@@ -88,6 +104,12 @@ SKIP = {"linop.Linop._apply", "linop.Gradient", "linop.FiniteDifference",  # abs
         "linop._check_shape_positive", "linop._check_compose_linops", "linop._combine_compose_linops",
         "linop._check_linops_same_ishape", "linop._check_linops_same_oshape",
         "interp._get_interpolate", "interp._get_gridding", "interp._spline_kernel", "interp._kaiser_bessel_kernel"}
+
+# methods resolved by dynamic dispatch (subclasses override them): never inlined, child-operator contract
+DISPATCH_METHODS = {"_apply", "_prox", "_adjoint_linop", "_normal_linop", "apply", "run", "update", "_update", "_done",
+                    "_get_alg", "_pre_update", "_post_update", "_summarize", "_output", "_write_postfix", "objective"}
+# filled by harness/props/c02.py with EXPECTED_OK: functions that must carry their own `_ok` obligation
+MUST_BE_CLEAN = set()
 
 SCALAR_ATTRS = {"shape", "dtype", "ndim", "size", "itemsize", "nbytes", "device", "xp", "id", "name", "repr_str"}
 VIEW_ATTRS = {"T", "real", "imag", "flat", "H", "N"}
@@ -168,10 +190,12 @@ class Gen:
         self.done = {}      # key -> dict(lean, n, np, nc, params, captured, body)
         self.order = []
         self.active = []
+        self.classes = {}   # modkey -> {class name: ClassDef}
         for mk, rel in MODULES.items():
             with open(os.path.join(common.REPO, rel)) as f:
                 tree = ast.parse(f.read())
             self.trees[mk] = tree
+            self.classes[mk] = {n.name: n for n in tree.body if isinstance(n, ast.ClassDef)}
             for node in tree.body:
                 if isinstance(node, ast.FunctionDef):
                     self.funcs["%s.%s" % (mk, node.name)] = (mk, node, None)
@@ -210,6 +234,61 @@ class Gen:
             keys.append(k)
         return keys
 
+    # ---- private helper methods (inlined at their call sites) -----------------------------------
+    def mro(self, mk, clsname):
+        """the class and its bases defined in the same module, nearest first (single inheritance chains;
+        a base that is not a plain name of this module ends the chain)"""
+        out, seen = [], set()
+        todo = [clsname]
+        while todo:
+            c = todo.pop(0)
+            if c in seen or c not in self.classes[mk]:
+                continue
+            seen.add(c)
+            out.append(self.classes[mk][c])
+            for b in self.classes[mk][c].bases:
+                if isinstance(b, ast.Name):
+                    todo.append(b.id)
+        return out
+
+    def subclasses(self, mk, clsname):
+        """strict subclasses of `clsname` defined in the module (transitively, through plain-name bases)"""
+        out, grew = {clsname}, True
+        while grew:
+            grew = False
+            for c in self.classes[mk].values():
+                if c.name not in out and any(isinstance(b, ast.Name) and b.id in out for b in c.bases):
+                    out.add(c.name)
+                    grew = True
+        return out - {clsname}
+
+    def private_method(self, mk, clsname, name):
+        """(ClassDef, FunctionDef) of the private helper method `name` as seen from a method of class `clsname`, or
+        None when the name is not such a method (then the caller keeps its old treatment: child-operator contract).
+        The receiver's dynamic class is `clsname` or one of its subclasses: the body found first along the bases
+        of `clsname` is THE body only if no subclass of `clsname` in the module defines the name again and every
+        base on the way is a plain class of this module (so nothing is dispatched elsewhere)."""
+        if not name.startswith("_") or name.startswith("__") or name in DISPATCH_METHODS:
+            return None
+        if clsname is None or clsname not in self.classes.get(mk, {}):
+            return None
+        for n in ast.walk(self.trees[mk]):      # `self._m = ...` somewhere: an instance attribute may shadow the method
+            if isinstance(n, ast.Attribute) and n.attr == name and isinstance(n.ctx, (ast.Store, ast.Del)):
+                return None
+        for sub in self.subclasses(mk, clsname):
+            if any(isinstance(m, ast.FunctionDef) and m.name == name for m in self.classes[mk][sub].body):
+                return None
+        for c in self.mro(mk, clsname):
+            for m in c.body:
+                if isinstance(m, ast.FunctionDef) and m.name == name:
+                    return (c, m)
+                if isinstance(m, ast.Assign) and any(isinstance(t, ast.Name) and t.id == name for t in m.targets):
+                    return None       # class attribute of that name: not a plain method
+            if len(c.bases) > 1 or any(not isinstance(b_, ast.Name) or (b_.id not in self.classes[mk] and b_.id != "object")
+                                       for b_ in c.bases):
+                return None
+        return None
+
     def lean_name(self, key):
         return "prog_" + key.replace(".", "_")
 
@@ -245,6 +324,10 @@ class FnTr:
         self.captured_derived = set()
         self.containers = set()   # variables known to hold Python containers of arrays (lists/tuples), not ndarrays
         self.returns_container = False
+        self.ret_stack = []       # inlined helper bodies: [result variable, saw a value] of the innermost one
+        self.inline_stack = []    # names of the helpers being inlined (recursion = Unsupported)
+        self.local_defs = {}      # local `def helper(...)` closures of a non-app function (inlined when called)
+        self.cur_fn = [closure if closure is not None else fn]
         a = fn.args
         if (a.kwarg and not self.app) or a.kwonlyargs or a.posonlyargs:
             raise Unsupported("%s: **kwargs / keyword-only signature" % key)
@@ -289,10 +372,20 @@ class FnTr:
     def prescan(self):
         """captured slots: `self` (the object itself: attribute writes, unknown methods) + every self.<attr>"""
         order = ["self"]
-        for node in ast.walk(self.fn):
-            if isinstance(node, ast.Attribute) and isinstance(node.value, ast.Name) and node.value.id == "self":
-                if node.attr not in order:
-                    order.append(node.attr)
+        todo, seen = [self.fn], set()
+        while todo:
+            fn = todo.pop(0)
+            for node in ast.walk(fn):
+                if isinstance(node, ast.Attribute) and isinstance(node.value, ast.Name) and node.value.id == "self":
+                    if node.attr not in order:
+                        order.append(node.attr)
+                # attributes read by private helper methods that will be inlined into this program
+                if isinstance(node, ast.Attribute) and isinstance(node.value, ast.Name) and not self.app and \
+                        (node.value.id == "self" or node.value.id in self.g.classes.get(self.mk, {})):
+                    pm = self.g.private_method(self.mk, self.cls, node.attr)
+                    if pm is not None and pm[1].name not in seen:
+                        seen.add(pm[1].name)
+                        todo.append(pm[1])
         for a in order:
             self.capt[a] = self.new("self." + a if a != "self" else "self")
             self.captured_derived.add(self.capt[a])
@@ -508,8 +601,10 @@ class FnTr:
             if pos and pos[0] is not None:
                 out.append(("mut", pos[0]))
             return None
-        if key in SKIP or (mk in ("linop", "prox")):
+        if key in SKIP:
             raise Unsupported("%s: call of out-of-scope helper %s" % (self.key, key))
+        # module-level helpers of linop.py / prox.py (e.g. an extracted `_axis_slice`) are translated on demand,
+        # like the functions of util.py: same rules, same `callS` with the summary computed by the Lean analysis
         info = self.g.need(key)
         names = info["params"]
         args = [None] * len(names)
@@ -564,6 +659,11 @@ class FnTr:
             if chain:
                 root = chain[0]
                 rootvar = None if root in MODULE_NAMES else self.lookup(root)
+                if len(chain) == 2 and not self.app and rootvar is None and self.cls is not None and \
+                        (root == "self" or root in self.g.classes.get(self.mk, {})):
+                    pm = self.g.private_method(self.mk, self.cls, meth)
+                    if pm is not None and (root == "self" or root == pm[0].name):
+                        return self.inline(pm[1], e, out, "%s.%s" % (pm[0].name, meth), "self" if root == "self" else "class")
                 if root == "self" and self.is_method and rootvar is None:
                     if len(chain) == 2 or (len(chain) == 3 and chain[2] in ("H", "N")):
                         obj = self.ev(f, out)
@@ -652,6 +752,8 @@ class FnTr:
             return self.unknown_call([base] + allv, out, "unknown method ." + meth)
         if isinstance(f, ast.Name):
             name = f.id
+            if name in self.local_defs and self.lookup(name) is None:
+                return self.inline(self.local_defs[name], e, out, "<local>." + name, None)
             v = self.lookup(name)
             pos, kws = self.args_of(e, out)
             allv = pos + list(kws.values())
@@ -674,6 +776,86 @@ class FnTr:
             return self.unknown_call(allv, out, "unknown function " + name)
         pos, kws = self.args_of(e, out)
         return self.unknown_call(pos + list(kws.values()), out, "computed callee")
+
+    def inline(self, m, e, out, label, via):
+        """substitute the body of a private helper (`via` = "self": `self._m(..)`, "class": `Cls._m(..)`, None: a
+        local closure) at the call `e`.  Parameters are fresh variables bound to the argument variables (positional
+        and keyword arguments resolved against the signature, constant defaults), every name the body assigns is a
+        fresh local, `return v` joins v into the result variable.  Outside this subset: Unsupported."""
+        if label in self.inline_stack:
+            raise Unsupported("%s: recursive helper %s" % (self.key, label))
+        if len(self.inline_stack) >= 6:
+            raise Unsupported("%s: helper nesting too deep at %s" % (self.key, label))
+        a = m.args
+        if a.vararg or a.kwarg or a.kwonlyargs or a.posonlyargs:
+            raise Unsupported("%s: helper %s has a */** / keyword-only signature" % (self.key, label))
+        static = False
+        for d in m.decorator_list:
+            if isinstance(d, ast.Name) and d.id == "staticmethod" and via is not None:
+                static = True
+            else:
+                raise Unsupported("%s: decorated helper %s" % (self.key, label))
+        for n in ast.walk(m):
+            if isinstance(n, (ast.Yield, ast.YieldFrom, ast.Await, ast.Global, ast.Nonlocal, ast.Lambda, ast.AsyncFunctionDef,
+                              ast.ClassDef)):
+                raise Unsupported("%s: helper %s uses %s" % (self.key, label, type(n).__name__))
+        params = [x.arg for x in a.args]
+        cargs = list(e.args)
+        if any(isinstance(x, ast.Starred) for x in cargs) or any(k.arg is None for k in e.keywords):
+            raise Unsupported("%s: */** arguments in the call of helper %s" % (self.key, label))
+        if via is not None and not static:
+            if not params or params[0] != "self":
+                raise Unsupported("%s: helper method %s without self" % (self.key, label))
+            params = params[1:]
+            if via == "class":
+                if not cargs or not (isinstance(cargs[0], ast.Name) and cargs[0].id == "self" and self.lookup("self") is None):
+                    raise Unsupported("%s: %s called through the class on another object" % (self.key, label))
+                cargs = cargs[1:]
+        if len(cargs) > len(params):
+            raise Unsupported("%s: too many arguments for helper %s" % (self.key, label))
+        given = {}
+        for p_, x in zip(params, cargs):
+            given[p_] = self.ev(x, out)                 # evaluated in the CALLER's scope, in call order
+        for k in e.keywords:
+            if k.arg not in params or k.arg in given:
+                raise Unsupported("%s: bad keyword %s for helper %s" % (self.key, k.arg, label))
+            given[k.arg] = self.ev(k.value, out)
+        ndef = len(a.defaults)
+        defaults = dict(zip([x.arg for x in a.args][len(a.args) - ndef:], a.defaults))
+        for p_ in params:
+            if p_ not in given:
+                if p_ not in defaults or not isinstance(defaults[p_], ast.Constant):
+                    raise Unsupported("%s: argument %s of helper %s missing / non-constant default" % (self.key, p_, label))
+                given[p_] = None
+        # callee scope: parameters and every assigned name are fresh variables (a closure additionally sees the
+        # caller's variables, read-only: an assignment in the body never rebinds a variable of the caller)
+        sc = {}
+        for p_ in params:
+            sc[p_] = self.new("%s:%s" % (label, p_))
+        for n in ast.walk(m):
+            if isinstance(n, ast.Name) and isinstance(n.ctx, (ast.Store, ast.Del)) and n.id not in sc:
+                sc[n.id] = self.new("%s:%s" % (label, n.id))
+        saved = self.scopes
+        self.scopes = (list(saved) if via is None else []) + [sc]
+        if via is None and len(self.scopes) == 1:
+            self.scopes = [{}] + self.scopes
+        res = self.tmp("inl")
+        out.append(("alias", res, []))
+        for p_ in params:
+            self.assign_target(ast.Name(id=p_, ctx=ast.Store()), given[p_], out)
+        self.ret_stack.append([res, False])
+        self.inline_stack.append(label)
+        self.cur_fn.append(m)
+        try:
+            import copy
+            body, _ = self.block(_flatten_with(copy.deepcopy(m.body), self))
+        finally:
+            self.cur_fn.pop()
+            self.inline_stack.pop()
+            r = self.ret_stack.pop()
+            self.scopes = saved
+        out.extend(body)
+        return res if r[1] else None
 
     def app_call(self, e, f, chain, out):
         """constructor calls and `.run()` in the app modules; NotImplemented = not one of those"""
@@ -778,15 +960,36 @@ class FnTr:
             return self.lookup(expr.id) in self.containers
         return False
 
-    def is_cpu_test(self, test):
-        return (isinstance(test, ast.Compare) and len(test.ops) == 1 and isinstance(test.ops[0], ast.Eq)
-                and isinstance(test.left, ast.Name) and test.left.id == "xp"
-                and isinstance(test.comparators[0], ast.Name) and test.comparators[0].id == "np")
+    def cpu_arm(self, test):
+        """True: the `if` body is the CPU arm (`xp == np`, `np == xp`, `xp is np`); False: the else arm is (`xp != np`,
+        `xp is not np`, `not (xp == np)`); None: not a CPU/GPU test"""
+        if isinstance(test, ast.UnaryOp) and isinstance(test.op, ast.Not):
+            r = self.cpu_arm(test.operand)
+            return None if r is None else not r
+        if isinstance(test, ast.Compare) and len(test.ops) == 1 and isinstance(test.left, ast.Name) \
+                and isinstance(test.comparators[0], ast.Name):
+            names = {test.left.id, test.comparators[0].id}
+            if names in ({"xp", "np"}, {"xp", "numpy"}) and self.lookup("np") is None and self.lookup("numpy") is None:
+                if isinstance(test.ops[0], (ast.Eq, ast.Is)):
+                    return True
+                if isinstance(test.ops[0], (ast.NotEq, ast.IsNot)):
+                    return False
+        return None
 
     def block(self, stmts):
         """-> (list of IR nodes, definitely_returns)"""
         out = []
         for i, s in enumerate(stmts):
+            if isinstance(s, ast.Return) and self.ret_stack:
+                v = self.ev(s.value, out)      # return of an inlined helper: weak update of the call's result
+                r = self.ret_stack[-1]
+                if v is not None:
+                    out.append(("alias", r[0], [r[0], v]))
+                    r[1] = True
+                    for fl in (self.containers, self.captured_derived, self.operators):
+                        if v in fl:
+                            fl.add(r[0])
+                return out, True
             if isinstance(s, ast.Return):
                 v = self.ev(s.value, out)
                 if v is not None:
@@ -798,8 +1001,9 @@ class FnTr:
                 return out, True
             if isinstance(s, ast.If):
                 self.ev(s.test, out)
-                if self.is_cpu_test(s.test):
-                    b, r = self.block(s.body)
+                arm = self.cpu_arm(s.test)
+                if arm is not None:
+                    b, r = self.block(s.body if arm else s.orelse)
                     out.extend(b)
                     if r:
                         return out, True
@@ -900,7 +1104,15 @@ class FnTr:
             pass
         elif isinstance(s, ast.FunctionDef):
             if not self.app:
-                raise Unsupported("%s: nested function %s" % (self.key, s.name))
+                # local helper closure: inlined at its calls; it must never be used as a value (callback) or rebound
+                uses = [n for n in ast.walk(self.cur_fn[-1]) if isinstance(n, ast.Name) and n.id == s.name]
+                calls = [n.func for n in ast.walk(self.cur_fn[-1]) if isinstance(n, ast.Call) and isinstance(n.func, ast.Name)
+                         and n.func.id == s.name]
+                ndefs = [n for n in ast.walk(self.cur_fn[-1]) if isinstance(n, (ast.FunctionDef, ast.ClassDef)) and n.name == s.name]
+                if len(uses) != len(calls) or len(ndefs) != 1 or self.lookup(s.name) is not None:
+                    raise Unsupported("%s: nested function %s is used as a value / rebound" % (self.key, s.name))
+                self.local_defs[s.name] = s
+                return out
             d = self.bind(s.name)            # a callable, holds no array itself; its body is the program <key>.<name>
             out.append(("alias", d, []))
             self.operators.add(d)
@@ -1139,8 +1351,36 @@ def allowed_slots(g, key):
     return out
 
 
+def private_inplace(g):
+    """NEW private module-level helpers (single underscore, not in MUST_BE_CLEAN, reached only through call sites of
+    in-scope functions) whose analysis converged and that write nothing but their own parameters / fresh arrays:
+    they carry no `_ok` obligation; every caller accounts for the writes through `summ_<f>` (tied to the helper's own
+    analysis by `summ_<f>_eq`).  A helper whose analysis fails (`ok` false) keeps its (failing) obligation."""
+    called = set()
+
+    def walk(nodes):
+        for nd in nodes:
+            if nd[0] == "callS":
+                called.add(nd[2])
+            elif nd[0] == "branch":
+                walk(nd[1]); walk(nd[2])
+            elif nd[0] == "loop":
+                walk(nd[1])
+    for k in g.order:
+        walk(g.done[k]["body"])
+    out = {}
+    for k in g.order:
+        nm = k.split(".")[-1]
+        sm = g.done[k]["summary"]
+        if (g.funcs[k][2] is None and nm.startswith("_") and not nm.startswith("__") and k not in MUST_BE_CLEAN
+                and k not in INPLACE_BY_CONTRACT and k not in NEEDS_RUNTIME and k in called and sm["ok"] and not sm["clean"] and sm["muts"]):
+            out[k] = "private helper, writes its parameter(s) %s (accounted for at every call site)" % sm["muts"]
+    return out
+
+
 def ok_keys(g):
-    return [k for k in g.order if k not in INPLACE_BY_CONTRACT and k not in NEEDS_RUNTIME]
+    pi = private_inplace(g)
+    return [k for k in g.order if k not in INPLACE_BY_CONTRACT and k not in NEEDS_RUNTIME and k not in pi]
 
 
 def gen_effects_ok(ctx=None):
@@ -1163,6 +1403,9 @@ def gen_effects_ok(ctx=None):
     out.append("/-- in-place by documented contract (no obligation; callers use the computed summary) -/\n"
                "def inplaceByContract : List (String × String) := [\n" +
                ",\n".join('  ("%s", "%s")' % kv for kv in sorted(INPLACE_BY_CONTRACT.items())) + "]\n")
+    out.append("/-- new private helpers that write a parameter: no obligation of their own, callers use the summary -/\n"
+               "def privateInplaceHelpers : List (String × String) := [\n" +
+               ",\n".join('  ("%s", "%s")' % kv for kv in sorted(private_inplace(g).items())) + "]\n")
     out.append("/-- not provable by the analysis: covered by the runtime stream only -/\n"
                "def needsRuntime : List (String × String) := [\n" +
                ",\n".join('  ("%s", "%s")' % kv for kv in sorted(NEEDS_RUNTIME.items())) + "]\n")
